@@ -36,11 +36,17 @@ def init_state_values(**values):
 
 def init_parameter_values(name, parameter_names, parameter_values, code):
     logger.debug(f"Generating init_parameter_values with {len(parameter_values)} values")
-    values_comment = indent(
-        "#"
-        + functools.reduce(acc, [f"{n}={v}" for n, v in zip(parameter_names, parameter_values)]),
-        "    ",
-    )
+    if len(parameter_values) == 0:
+        # A model without parameters (same as in the numpy template)
+        values_comment = ""
+    else:
+        values_comment = indent(
+            "#"
+            + functools.reduce(
+                acc, [f"{n}={v}" for n, v in zip(parameter_names, parameter_values)]
+            ),
+            "    ",
+        )
 
     values = ", ".join(map(str, parameter_values))
     return dedent(
